@@ -112,6 +112,41 @@ pub fn rules(th: bool) -> Vec<(String, String, String)> {
             wrap(&format!("[{{f: {}}}, {{g: {}}}]", q(&format!("i{}", p)), q(&format!("i{}", p)))),
         ));
     }
+    // several rows / identifiers on the SAME field: the optimiser merges their searches into one
+    // automaton or regex set, which has to keep the case mode each member was loaded with
+    {
+        let sp = ["a*", "*a", "A*", "*B", "ab*", "*Ab", "a", "*a*", "?^a", "aB", "*b*", "i*"];
+        let ip = |p: &str| q(&format!("i{}", p));
+        for (i, a) in sp.iter().enumerate() {
+            for (j, b) in sp.iter().enumerate() {
+                if j < i {
+                    continue;
+                }
+                out.push((
+                    format!("[{{f: {}}}, {{f: {}}}]", a, b),
+                    wrap(&format!("[{{f: {}}}, {{f: {}}}]", q(a), q(b))),
+                    wrap(&format!("[{{f: {}}}, {{f: {}}}]", ip(a), ip(b))),
+                ));
+                out.push((
+                    format!("[{{f: {}, g: ab}}, {{f: {}}}, {{g: {}}}]", a, b, a),
+                    wrap(&format!("[{{f: {}, g: ab}}, {{f: {}}}, {{g: {}}}]", q(a), q(b), q(a))),
+                    wrap(&format!("[{{f: {}, g: iab}}, {{f: {}}}, {{g: {}}}]", ip(a), ip(b), ip(a))),
+                ));
+                let c = sp[(i + j + 1) % sp.len()];
+                out.push((
+                    format!("[{{f: {}}}, {{f: {}}}, {{f: {}}}]", a, b, c),
+                    wrap(&format!("[{{f: {}}}, {{f: {}}}, {{f: {}}}]", q(a), q(b), q(c))),
+                    wrap(&format!("[{{f: {}}}, {{f: {}}}, {{f: {}}}]", ip(a), ip(b), ip(c))),
+                ));
+                let three = |x: String, y: String, z: String, cond: &str| {
+                    format!("detection:\n  A: {{f: {}}}\n  B: {{f: {}}}\n  C: {{f: {}}}\n  condition: {}\ntrue_positives: []\ntrue_negatives: []\n", x, y, z, cond)
+                };
+                for cond in ["A or B or C", "not (A or B or C)", "A and (B or C)"] {
+                    out.push((format!("A: {{f: {}}} B: {{f: {}}} C: {{f: {}}} ; {}", a, b, c, cond), three(q(a), q(b), q(c), cond), three(ip(a), ip(b), ip(c), cond)));
+                }
+            }
+        }
+    }
     // comparisons written in the condition: they have no string pattern, so nothing can carry an
     // i prefix and the two builds must treat them identically (field-to-field str() equality is
     // exact in both)
